@@ -36,6 +36,15 @@ type Profile struct {
 	UsesHeavy bool
 	// Extras enables when/extension/description statements (which end up in Extra/Exts).
 	Extras bool
+	// PrefixTraps: modules may declare equal own prefixes and import other
+	// modules under arbitrary (per importer unique) prefixes, so that one prefix
+	// string means different modules in different texts.
+	PrefixTraps bool
+	// CrossDeviationTrap: two deviating modules may deviate the same property of
+	// the same node (valid, but the outcome is only defined if the library
+	// applies deviating modules in a fixed order); never used together with the
+	// reference comparison.
+	CrossDeviationTrap bool
 }
 
 // Kinds of invalid construct the generator can inject.
@@ -61,6 +70,10 @@ const (
 	InvDevDelMin       = "dev-delete-different-min"
 	InvDevBadType      = "dev-unresolvable-type"
 	InvDevUnknownKind  = "dev-unknown-kind"
+	// InvFanoutChain: an unresolvable typedef below a chain of typedefs each of
+	// which is a union of two references to the level below: resolution work
+	// must stay polynomial (a hang is a C01 violation).
+	InvFanoutChain = "typedef-fanout-over-unresolvable-base"
 )
 
 type gen struct {
@@ -117,6 +130,9 @@ func Generate(t *tape.Tape, p Profile) *Generated {
 	nm := g.rng(p.Mods)
 	for i := 0; i < nm; i++ {
 		m := &Mod{Name: fmt.Sprintf("m%d", i), Prefix: fmt.Sprintf("p%d", i), NS: fmt.Sprintf("urn:m%d", i)}
+		if p.PrefixTraps && t.Chance(1, 2) {
+			m.Prefix = []string{"p", "q", "x"}[t.Intn(3)]
+		}
 		if p.Revisions && t.Chance(1, 2) {
 			for k := t.Range(1, 2); k > 0; k-- {
 				m.Revs = append(m.Revs, fmt.Sprintf("20%02d-%02d-%02d", t.Range(10, 24), t.Range(1, 12), t.Range(1, 28)))
@@ -159,7 +175,39 @@ func Generate(t *tape.Tape, p Profile) *Generated {
 	g.augments()
 	g.deviations()
 	g.injectLate()
+	g.assignImportPrefixes()
 	return &Generated{S: g.s, Injected: g.injected}
+}
+
+// assignImportPrefixes gives every import a prefix that is unique within the
+// importing text: by default the imported module's own prefix, an alias when
+// that collides with the importer's own prefix or another import (or, with
+// PrefixTraps, sometimes an arbitrary alias from a small pool).
+func (g *gen) assignImportPrefixes() {
+	t := g.t.Sub("import-prefixes")
+	for _, m := range g.s.Mods {
+		used := map[string]bool{m.Prefix: true}
+		for _, imp := range Imports(g.s, m) {
+			x := g.s.Mod(imp)
+			want := imp
+			if x != nil {
+				want = x.Prefix
+			}
+			if g.p.PrefixTraps && t.Chance(1, 3) {
+				want = []string{"p", "q", "x", "y"}[t.Intn(4)]
+			}
+			for n := 0; used[want]; n++ {
+				want = fmt.Sprintf("ix%d", n)
+			}
+			used[want] = true
+			if x == nil || want != x.Prefix {
+				if m.ImportAs == nil {
+					m.ImportAs = map[string]string{}
+				}
+				m.ImportAs[imp] = want
+			}
+		}
+	}
 }
 
 // texts in which module (index mi, module or submodule m) may refer to:
@@ -930,7 +978,13 @@ func (g *gen) deviations() {
 	for i := 0; i < nd; i++ {
 		tg := cand[t.Intn(len(cand))]
 		if used[tg.x] {
-			continue // one deviation per node: cross-module order is not defined by the property
+			if g.p.CrossDeviationTrap && len(dms) > 1 && !gone[tg.x] && (tg.x.Kind == KLeaf || tg.x.Kind == KLeafList || tg.x.Kind == KContainer) {
+				// every deviating module sets the same property to its own value
+				for di, dm := range dms {
+					dm.Deviations = append(dm.Deviations, &Deviation{Target: g.finalPath(tg), Deviates: []*Deviate{{Kind: "replace", Config: []string{"true", "false"}[di%2]}}})
+				}
+			}
+			continue // otherwise one deviation per node: cross-module order is not defined by the property
 		}
 		// do not aim below or at something an earlier not-supported removed
 		skip := false
@@ -953,6 +1007,9 @@ func (g *gen) deviations() {
 		case g.wantInvalid(InvDevMissing):
 			d.Target = append(append([]Step(nil), d.Target...), Step{d.Target[len(d.Target)-1].Mod, g.id("nosuchnode")})
 			d.Deviates = []*Deviate{{Kind: "add", Config: "false"}}
+			if t.Chance(1, 2) {
+				d.Deviates = []*Deviate{{Kind: "not-supported"}}
+			}
 			d.Invalid = InvDevMissing
 		case x.Kind == KLeaf && len(x.Default) == 1 && g.wantInvalid(InvDevAddDefault):
 			d.Deviates = []*Deviate{{Kind: "add", Default: []string{"zz"}}}
@@ -1122,9 +1179,33 @@ func (g *gen) injectLate() {
 	t := g.t
 	m := g.mods[t.Intn(len(g.mods))]
 	if g.wantInvalid(InvUsesCycle) {
-		name := g.id("g")
-		m.Groupings = append(m.Groupings, &Grouping{Name: name, Body: []*Node{{Kind: KLeaf, Name: g.id("l"), Type: &Type{Ref: Ref{"", "string"}}}, {Kind: KUses, Uses: &Ref{m.Name, name}}}})
-		m.Body = append(m.Body, &Node{Kind: KContainer, Name: g.id("c"), Kids: []*Node{{Kind: KUses, Uses: &Ref{m.Name, name}}}})
+		// a cycle of 1-3 groupings, optionally spread over two modules that then
+		// import each other, optionally with the uses nested in a container,
+		// optionally never used from the data tree
+		k := t.Range(1, 3)
+		names := make([]string, k)
+		owners := make([]*Mod, k)
+		for i := range names {
+			names[i] = g.id("g")
+			owners[i] = m
+			if len(g.mods) > 1 && t.Chance(1, 3) {
+				owners[i] = g.mods[t.Intn(len(g.mods))]
+			}
+		}
+		for i := range names {
+			nxt := (i + 1) % k
+			use := &Node{Kind: KUses, Uses: &Ref{owners[nxt].Name, names[nxt]}}
+			body := []*Node{{Kind: KLeaf, Name: g.id("l"), Type: &Type{Ref: Ref{"", "string"}}}}
+			if t.Chance(1, 3) {
+				body = append(body, &Node{Kind: KContainer, Name: g.id("c"), Kids: []*Node{use}})
+			} else {
+				body = append(body, use)
+			}
+			owners[i].Groupings = append(owners[i].Groupings, &Grouping{Name: names[i], Body: body})
+		}
+		if t.Chance(2, 3) {
+			m.Body = append(m.Body, &Node{Kind: KContainer, Name: g.id("c"), Kids: []*Node{{Kind: KUses, Uses: &Ref{owners[0].Name, names[0]}}}})
+		}
 	}
 	if g.wantInvalid(InvTypedefCycle) {
 		a, b := g.id("t"), g.id("t")
@@ -1147,6 +1228,17 @@ func (g *gen) injectLate() {
 			m.Identities = append(m.Identities, &Identity{Name: names[i], Bases: []Ref{{m.Name, names[(i+1)%k]}}})
 		}
 	}
+	if g.wantInvalid(InvFanoutChain) {
+		depth := t.Range(12, 30)
+		prev := g.id("t")
+		m.Typedefs = append(m.Typedefs, &Typedef{Name: prev, Type: &Type{Ref: Ref{m.Name, g.id("nosuchtype")}}})
+		for k := 0; k < depth; k++ {
+			cur := g.id("t")
+			m.Typedefs = append(m.Typedefs, &Typedef{Name: cur, Type: &Type{Ref: Ref{"", "union"}, Union: []*Type{{Ref: Ref{m.Name, prev}}, {Ref: Ref{m.Name, prev}}}}})
+			prev = cur
+		}
+		m.Body = append(m.Body, &Node{Kind: KLeaf, Name: g.id("l"), Type: &Type{Ref: Ref{m.Name, prev}}})
+	}
 	if g.wantInvalid(InvUndefinedBase) {
 		m.Identities = append(m.Identities, &Identity{Name: g.id("i"), Bases: []Ref{{m.Name, g.id("nosuchidentity")}}})
 	}
@@ -1165,10 +1257,28 @@ func (g *gen) injectLate() {
 		b := bases[t.Intn(len(bases))]
 		name := g.id("same")
 		cnt := 0
+		var holders []*Mod
 		for _, x := range g.mods {
 			if t.Chance(2, 3) || cnt < 2 {
 				x.Identities = append(x.Identities, &Identity{Name: name, Bases: []Ref{b}})
+				holders = append(holders, x)
 				cnt++
+			}
+		}
+		// identities derived from the equal-named ones: locally (unprefixed base)
+		// and from other modules (prefixed base), so that the same base string
+		// means different identities in different texts
+		for _, x := range holders {
+			if t.Chance(2, 3) {
+				x.Identities = append(x.Identities, &Identity{Name: g.id("i"), Bases: []Ref{{x.Name, name}}})
+			}
+		}
+		for _, x := range g.mods {
+			if t.Chance(1, 2) {
+				h := holders[t.Intn(len(holders))]
+				if h != x {
+					x.Identities = append(x.Identities, &Identity{Name: g.id("i"), Bases: []Ref{{h.Name, name}}})
+				}
 			}
 		}
 	}
